@@ -64,6 +64,6 @@ def build(ctx):
         dd = dict(d); dd['KN'] = str(n)
         for fn in ('DRW_lock', 'DRW_try_lock', 'DRW_unlock', 'DRW_lock_shared', 'DRW_try_lock_shared', 'DRW_unlock_shared'):
             units.append(Unit(fn.replace('DRW_', 'DistributedRWLockImpl::'), 'cbmc', S, fn, defines=dd, inst='N=%d' % n, replace=rep, unwind=max(n + 2, 10), timeout=900,
-                              expect=[r'postcondition', r'precondition'], object_bits=(10 if n <= 8 else 13),
+                              expect=[r'postcondition', r'precondition'], object_bits=(10 if n <= 8 else 13), replay=dict(prog='replay/c22_replay.cpp', args=lambda ce, u: ['drw', '6'], no_rlimit=True),
                               assumptions=['slot loops bounded by the template constant N: unwound completely']))
     return units
